@@ -129,3 +129,11 @@ Proof.
     exists s', c. split; [assumption|]. now apply plain_set_ok.
   - intros H0 Hne. apply (set_rejects k r s old (plain_no_pressure s P)); [lia|assumption|congruence].
 Qed.
+
+Lemma get_own_cases k s : plain s ->
+  (fst (get k s) = s) \/ (view s k = None /\ fst (get k s) = collected s k).
+Proof.
+  intros P. destruct (view s k) as [r|] eqn:V.
+  - left. now rewrite (get_hit k s r V).
+  - right. split; [reflexivity|]. now rewrite (plain_get_miss k s P V).
+Qed.
